@@ -390,6 +390,13 @@ func RunCase(t *testing.T, spec CaseSpec) *CaseResult {
 		for _, a := range r.Results {
 			if hasCause(a, "invalid-event") {
 				n := len(a.Plan.Stream.Invalid)
+				if n >= 65536 {
+					res.Stats.probe("malformed:64KiB-or-larger")
+					iv := a.Plan.Stream.Invalid
+					if int(iv[9])|int(iv[10])<<8|(int(iv[11])|int(iv[12]))<<16 == n {
+						res.Stats.probe("malformed:length-bytes-2-and-3-or-together-to-the-real-length")
+					}
+				}
 				switch {
 				case n == 0:
 					res.Stats.probe("malformed:empty")
